@@ -58,6 +58,16 @@ def run(ctx):
         if not dom.relclose(rho * bg * 5.615, std, 1e-10):
             bad("gas density times Bg depends on pressure / is not the standard-condition mass content", inp,
                 dict(density_times_Bg=rho * bg * 5.615, expected=std))
+        # the same identity at other standard conditions (14.65 Texas, 14.696 = 1 atm, 14.73 AGA, 15.025 Louisiana; 59 / 68 F)
+        if k % 2 == 0:
+            for tsc, psc in ((60.0, 14.65), (59.0, 14.696), (68.0, 14.73), (60.0, 15.025)):
+                bg_s = float(gas.b_factor_DAK(T, p, tpc, ppc, tsc, psc))
+                std_s = psc * 28.964 * sg / (10.73159 * (tsc + 459.67))
+                ev += 1
+                if not dom.relclose(rho * bg_s * 5.615, std_s, 1e-10):
+                    bad("gas density times Bg is not the standard-condition mass content at the requested standard conditions",
+                        dict(**inp, temperature_standard=tsc, pressure_standard=psc), dict(density_times_Bg=rho * bg_s * 5.615, expected=std_s))
+                    break
         # compressibility = d ln(density)/dp (Richardson-extrapolated central differences of the library's own density)
         cg = float(gas.compressibility_DAK(T, p, tpc, ppc))
         f = lambda q: math.log(gas.density_DAK(T, q, tpc, ppc, sg))
